@@ -51,4 +51,14 @@ PROPS = {
         trusted_base=["Spec/HeaderSpec.v (PE/COFF offsets, acceptance conjunction, standard PE checksum)", "tools/gen_layout.py"],
         assumptions=["x86_64, 64-bit usize"],
     ),
+    "C20": dict(
+        claim="Machine-checked proof over an executable model of strings.rs: for every byte string, configuration and base, iterating the enumerator to exhaustion terminates and yields exactly map found (filter qualifies (runs bytes)) - the qualifying maximal printable runs in order, with address base+start and the NUL flag (C20_enumerate); each call returns the first qualifying run at or after the resume offset and resumes right after its terminator (C20_next); runs consist of printable bytes only, are maximal, ordered and non-overlapping (C20_runs_sound, C20_runs_ordered); the implementation's byte test is the documented set TAB, LF, CR, 0x20..0x7E (C20_printable_set). Tied to /repo by the correspondence check on generated byte strings and configurations.",
+        note="Trusted: Coq kernel, extraction and glue; Spec/Runs.v as the reading of the property (a run before every non-printable byte, possibly empty; the rest of the buffer is a run only if non-empty; NUL-terminated runs use min_length_nul, others need strict_nul off and min_length). Buffer lengths are assumed below 2^32 (the iterator keeps its offset in a u32).",
+        bin="strings", driver="strings_driver", model_ml="strings_model", extract=["Strings"],
+        quick_cases=6000, thorough_cases=1000000, case_seconds=3,
+        correspondence="Model/Strings.v {is_printable, scan/next, enumerate} vs pelite::strings::{Config::enumerate, Enumerator::next}",
+        rule="byte strings of length 0..125 built from printable runs of length 0,1,2,0..11 (TAB/LF/CR/space/tilde over-represented) separated by terminators drawn from {NUL x4, 0x7F, 0x1F, 0x80, 0xFF, 0x08, 0x0B}, doubled NULs, buffers ending inside a run, 10% pure noise; thresholds from {0,1,2,3,6,255,1..10}; strict on/off; bases {0, 2^32-1, 2^32-1-len, 2^32-16, page multiples}. Non-trivial: non-empty input.",
+        trusted_base=["Spec/Runs.v as the reading of the property text"],
+        assumptions=["buffer length < 2^32"],
+    ),
 }
